@@ -6406,9 +6406,11 @@ impl Nudge {
                     unit = largest.plural(),
                 )
             })?
+            // Weeks are only ever non-zero in the balanced span when weeks are
+            // the largest unit, and in that case they are part of the invariant
+            // nanoseconds rounded above (and so already accounted for).
             .years_ranged(balanced.get_years_ranged())
-            .months_ranged(balanced.get_months_ranged())
-            .weeks_ranged(balanced.get_weeks_ranged());
+            .months_ranged(balanced.get_months_ranged());
 
         let diff_nanos = rounded_nanos - balanced_nanos;
         let diff_days = rounded_nanos.div_ceil(t::NANOS_PER_CIVIL_DAY)
